@@ -5,6 +5,9 @@ use std::convert::TryFrom;
 
 pub use crate::format::DatabaseVersion;
 
+#[cfg(keepass_verif)]
+use crate::verif_hooks as getrandom;
+
 #[cfg(feature = "save_kdbx4")]
 use crate::crypt::ciphers::Cipher;
 use crate::{
